@@ -246,6 +246,15 @@ func zzC06(nPods int) {
 			}
 		}
 		nondet.Assert("C06.restart-record-kept", nondet.Implies(!newer, kept))
+		// ... and a newer restart extends it: the first observed restart stays what it was as long as
+		// the record was already open (condition True), whatever else changes on the condition
+		firstKept := false
+		for _, c := range res.NewStatus.Conditions {
+			if c.Type == datadoghqv1alpha1.ConditionTypePodRestarting {
+				firstKept = nondet.And(c.Status == corev1.ConditionTrue, c.LastTransitionTime.Time.Equal(restartFirst))
+			}
+		}
+		nondet.Assert("C06.restart-record-extended", nondet.Implies(nondet.And(newer, restartTrue), firstKept))
 	}
 	nondet.Assert("C06.cond.failed", failedCond == res.IsFailed)
 	nondet.Assert("C06.cond.paused", pausedCond == res.IsPaused)
